@@ -30,7 +30,7 @@ m = {
               "baseline_off_cmd": "cd /repo && go build ./... && go test -vet=off -count=1 -timeout 25m ./...",
               "source_commits": [], "add_only": True},
     "engines": [{"name": "gosym", "path": "/verif/gosym", "serves_properties": [c["property_id"] for c in checks],
-                 "kind_free_text": "path-forking symbolic executor for go/ssa (x/tools v0.29.0) emitting SMT-LIB2 (QF_ABV-style terms, no set-logic) to z3 4.8.12 over a pipe; native replay of models via go test -overlay"}],
+                 "kind_free_text": "path-forking symbolic executor for go/ssa (x/tools v0.29.0) emitting SMT-LIB2 (QF_ABV-style terms, no set-logic) to z3 5.1.0 (z3-new) over a pipe; native replay of models via go test -overlay"}],
     "checks": checks,
     "notes": "Exit 2 + 'INCONCLUSIVE' means solver unknown/timeout, unwinding bound hit, vacuous harness or non-reproducing model; it is never reported as success.",
     "not_applicable": [{"property_id": p, "reason": na.get(p, "no sound solver-based check built yet for this property (see DESIGN.md §9)")} for p in ALL if p not in [c["property_id"] for c in checks]],
